@@ -38,6 +38,7 @@ pub fn worker_main(kind: &str, _args: &[String]) -> i32 {
         "c11r" => c11::worker_registered(),
         "c13" => c13::worker(),
         "c14" => c14::worker(),
+        "c14s" => c14::worker_shared(),
         "c16" => c16::worker(),
         "c18" => c18::worker(),
         _ => {
